@@ -400,7 +400,9 @@ class AbstractPathModelDAG(ABC):
                         # If however we specified that the coverage fraction is in terms of edge lengths
                         # Then the constraints length is the sum of the lengths of the edges,
                         # where each edge without a length gets length 1
-                        constraint_length = sum(self.G[u][v].get(self.length_attr, 1) for (u,v) in self.subpath_constraints[j])
+                        # (as Python numbers, like the coefficients below: sums of fixed-width numpy integers wrap around,
+                        # np.uint16 40000 + 30000 = 4464)
+                        constraint_length = sum(float(self.G[u][v].get(self.length_attr, 1)) for (u,v) in self.subpath_constraints[j])
                         # And the fraction of edges that we need to cover is self.subpath_constraints_coverage_length
                         coverage_fraction = self.subpath_constraints_coverage_length
                         self.solver.add_constraint(
@@ -433,7 +435,7 @@ class AbstractPathModelDAG(ABC):
         if self.encode_edge_position:
             max_length = self.G.number_of_nodes()
             if self.length_attr is not None:
-                max_length = sum(self.G[u][v].get(self.length_attr, 1) for (u,v) in self.G.edges())
+                max_length = sum(float(self.G[u][v].get(self.length_attr, 1)) for (u,v) in self.G.edges())
             self.edge_position_vars = self.solver.add_variables(
                 self.edge_indexes, name_prefix="position", lb=0, ub=max_length, var_type=length_var_type
             )
@@ -453,7 +455,7 @@ class AbstractPathModelDAG(ABC):
         if self.encode_edge_position:
             max_length = self.G.number_of_nodes()
             if self.length_attr is not None:
-                max_length = sum(self.G[u][v].get(self.length_attr, 1) for (u,v) in self.G.edges())
+                max_length = sum(float(self.G[u][v].get(self.length_attr, 1)) for (u,v) in self.G.edges())
             self.path_length_vars = self.solver.add_variables(
                 self.path_indexes, name_prefix="path_length", lb=0, ub=max_length, var_type=length_var_type
             )
@@ -821,7 +823,7 @@ class AbstractPathModelDAG(ABC):
                 # positions are sums of edge lengths, which need not be integer
                 if abs(edge_position_sol[(u, v, path_index)] - current_edge_position) > 1e-3:
                     return False
-                current_edge_position += self.G[u][v].get(self.length_attr, 1)
+                current_edge_position += float(self.G[u][v].get(self.length_attr, 1))
         return True
     
     def verify_path_length(self):
@@ -840,7 +842,7 @@ class AbstractPathModelDAG(ABC):
                 path_temp = [self.G.source] + path + [self.G.sink]            
                 path_length = 0
                 for (u,v) in zip(path_temp[:-1], path_temp[1:]):
-                    path_length += self.G[u][v].get(self.length_attr, 1)   
+                    path_length += float(self.G[u][v].get(self.length_attr, 1))
 
                 if abs(path_length_sol[(path_index)] - path_length) > 1e-3:
                     return False
